@@ -38,6 +38,27 @@ def is_complement(site, partner):
     return site == partner
 
 
+def _zero(rng):
+    """Reactivity 0 in the spellings a user might pass (numpy scalars are tagged: scenarios stay plain JSON)."""
+    return rng.choice([0.0, 0.0, 0, {"np": "float64", "v": 0.0}, False, -0.0])
+
+
+def _positive(rng):
+    """Positive reactivities: floats, ints, numpy scalars, tiny, huge; rows need not sum to 1."""
+    return rng.choice([0.05, 0.1, 0.25, 0.5, 1.0, 3.0, 1, 2, 7, {"np": "float64", "v": 0.3}, {"np": "float32", "v": 0.5},
+                       {"np": "int64", "v": 2}, 1e-9, 1e-300, 1e6, 0.1 + 0.2])
+
+
+def materialise(value):
+    """Turn the tagged JSON spelling of a number into the Python / numpy object the user would pass."""
+    if isinstance(value, dict) and "np" in value:
+        import numpy as np
+        return getattr(np, value["np"])(value["v"])
+    if isinstance(value, dict):
+        return {k: materialise(v) for k, v in value.items()}
+    return value
+
+
 def _species(rng):
     species = []
     n_dollar = rng.choice([0, 1, 1, 2, 3])
@@ -164,8 +185,8 @@ def gen_config(rng, all_atom=None, tier="quick"):
         for d in all_descs:
             if rng.random() < 0.08:
                 continue  # missing key (treated as 0 by the code, not judged)
-            poly[user_key(d)] = 0.0 if rng.random() < (0.2 if not wild else 0.4) else rng.choice([0.05, 0.1, 0.25, 0.5, 1.0, 3.0])
-        if all(v == 0 for v in poly.values()) and poly and not wild:
+            poly[user_key(d)] = _zero(rng) if rng.random() < (0.2 if not wild else 0.4) else _positive(rng)
+        if all(materialise(v) == 0 for v in poly.values()) and poly and not wild:
             poly[rng.choice(sorted(poly))] = 1.0
     frag_react = {}
     full_matrix = rng.random() < 0.4
@@ -180,9 +201,9 @@ def gen_config(rng, all_atom=None, tier="quick"):
                     for c in listed:
                         if rng.random() < 0.1:
                             continue
-                        row[user_key(c)] = 0.0 if rng.random() < 0.35 else rng.choice([0.1, 0.3, 0.7, 1.0])
+                        row[user_key(c)] = _zero(rng) if rng.random() < 0.35 else _positive(rng)
                     admissible = [k for k in sorted(row) if norm_key(k) in complements(d, all_descs)]
-                    if admissible and all(row[k] == 0 for k in admissible) and not wild:
+                    if admissible and all(materialise(row[k]) == 0 for k in admissible) and not wild:
                         row[rng.choice(admissible)] = 1.0
                 frag_react[user_key(d)] = row
     terminal = []
@@ -190,12 +211,18 @@ def gen_config(rng, all_atom=None, tier="quick"):
         terminal = [user_key(d) for d in rng.sample(all_descs, k=min(len(all_descs), rng.choice([1, 1, 2])))]
     masses = None
     if not all_atom or rng.random() < 0.2:
-        masses = {f["name"]: rng.choice(BEAD_MASSES) for f in frags}
+        masses = {f["name"]: rng.choice(BEAD_MASSES + [72, 100, 12]) for f in frags}
+        if rng.random() < 0.3:
+            masses["UNUSED"] = 1.0e9      # entries for names that are not in the fragment set
+            masses["Zz"] = 0.0
     mass_of = masses or {f["name"]: f["mass"] for f in frags}
     mean_mass = sum(mass_of.values()) / len(mass_of)
-    steps = rng.choice([0, 1, 2, 3, 5, 8, 13, 21, 34, 55] if tier == "thorough" else [0, 1, 2, 3, 4, 6, 9, 14, 22])
+    steps = rng.choice([0, 1, 2, 3, 5, 8, 13, 21, 34, 55, 110] if tier == "thorough" else [0, 1, 2, 3, 4, 6, 9, 11, 14, 22, 22] + ([105] if rng.random() < 0.15 else [14]))
     target = rng.choice([steps * mean_mass * rng.uniform(0.7, 1.2), steps * mean_mass, -5.0, 0.0]) if rng.random() < 0.2 \
         else steps * mean_mass * rng.uniform(0.8, 1.1)
+    # bound the number of growth steps (smallest mass decides): long runs are occasional, never unbounded
+    cap_steps = 130 if steps > 60 else 60
+    target = min(target, cap_steps * min(m for n, m in mass_of.items() if n in {f["name"] for f in frags}))
     start = rng.choice([f["name"] for f in frags]) if rng.random() < 0.4 else None
     return {
         "all_atom": all_atom, "wild": wild,
